@@ -145,7 +145,7 @@ Lemma def_clone1_ref s m d s' m' d' :
   d' = next s /\ next s < next s' /\
   drefs s' = upd (drefs s) d' (drefs s d) /\
   (forall y, y < next s -> iref s' y = iref s y) /\
-  (forall y e, iref s' y = Some e -> iref s y = Some e \/ (In y (kids s' RChildren d') /\ exists x, iref s x = Some e)) /\
+  (forall y e, iref s' y = Some e -> iref s y = Some e \/ (In y (kids s' RChildren d') /\ exists x, In x (kids s RChildren d) /\ iref s x = Some e)) /\
   (forall y, In y (kids s' RChildren d') -> exists x, iref s' y = iref s x).
 Proof.
   intros Hab Hpl Hd Hch E. unfold def_clone1 in E.
@@ -193,7 +193,7 @@ Proof.
   injection E as <- <- <- Esnd. change (snd rr = None) in Esnd. destruct (Hrr Esnd) as [KF NF].
   change (a = a /\ a < next (fst rr) /\ drefs (fst rr) = upd (drefs s) a (drefs s d) /\
           (forall y, y < a -> iref (fst rr) y = iref s y) /\
-          (forall y e, iref (fst rr) y = Some e -> iref s y = Some e \/ (In y (kids (fst rr) RChildren a) /\ exists x, iref s x = Some e)) /\
+          (forall y e, iref (fst rr) y = Some e -> iref s y = Some e \/ (In y (kids (fst rr) RChildren a) /\ exists x, In x (kids s RChildren d) /\ iref s x = Some e)) /\
           (forall y, In y (kids (fst rr) RChildren a) -> exists x, iref (fst rr) y = iref s x)).
   destruct Hrd as [HiF HdF].
   assert (Hkc : kids (fst rr) RChildren a = children').
@@ -202,8 +202,8 @@ Proof.
   split; [reflexivity|]. split; [rewrite NF; change (next s5) with (next s4); lia|]. split.
   { rewrite HdF. unfold s5. cbn. rewrite D4, Rd3. reflexivity. }
   split; [intros y Hy; rewrite HiF, Hi5, I4 by lia; rewrite Ri3; reflexivity|]. split.
-  - intros y e Hy. rewrite HiF, Hi5 in Hy. destruct (Q4 y e Hy) as [H|[H1 [x0 [_ H3]]]]; [left; rewrite <- Ri3; exact H|].
-    right. rewrite Hkc. split; [exact H1|]. exists x0. rewrite <- Ri3. exact H3.
+  - intros y e Hy. rewrite HiF, Hi5 in Hy. destruct (Q4 y e Hy) as [H|[H1 [x0 [H2 H3]]]]; [left; rewrite <- Ri3; exact H|].
+    right. rewrite Hkc. split; [exact H1|]. exists x0. split; [rewrite <- Hk3; exact H2|rewrite <- Ri3; exact H3].
   - intros y Hy. rewrite Hkc in Hy. destruct (P4 y Hy) as [x0 [_ H3]]. exists x0. rewrite HiF, Hi5, H3, Ri3. reflexivity.
 Qed.
 
@@ -351,7 +351,7 @@ Proof.
   assert (HiE : iref sE = iref s1) by (rewrite Ri; cbn; exact A).
   assert (HdE : forall e, drefs sE e = if Nat.eqb e d' then [] else drefs s2 e) by (intro e; rewrite Rd; reflexivity).
   assert (Hnew : forall y e, iref s1 y = Some e -> exists x, iref s x = Some e).
-  { intros y e Hy. destruct (Hin y e Hy) as [H|[_ H]]; [exists y; exact H|exact H]. }
+  { intros y e Hy. destruct (Hin y e Hy) as [H|[_ [x [_ H]]]]; [exists y; exact H|exists x; exact H]. }
   split.
   - constructor.
     + intros n e. rewrite HdE, HiE. destruct (Nat.eqb_spec e d') as [->|Hne].
